@@ -9,6 +9,7 @@ import (
 	"fmt"
 	"io"
 	"net"
+	"net/netip"
 	"os"
 	"time"
 
@@ -500,3 +501,39 @@ func ListenPacket(network, address string) (PacketConn, error) {
 func ListenTCP(network string, laddr *TCPAddr) (Listener, error) {
 	return Listen(network, laddr.String())
 }
+
+// ---- netip-flavoured and less common methods of *net.UDPConn / stream connections
+
+func (c *UDPConn) ReadFromUDPAddrPort(b []byte) (int, netip.AddrPort, error) {
+	n, a, err := c.ReadFromUDP(b)
+	if a == nil {
+		return n, netip.AddrPort{}, err
+	}
+	return n, a.AddrPort(), err
+}
+func (c *UDPConn) WriteToUDPAddrPort(b []byte, addr netip.AddrPort) (int, error) {
+	return c.WriteToUDP(b, net.UDPAddrFromAddrPort(addr))
+}
+func (c *UDPConn) ReadMsgUDPAddrPort(b, oob []byte) (n, oobn, flags int, addr netip.AddrPort, err error) {
+	n, addr, err = c.ReadFromUDPAddrPort(b)
+	return
+}
+func (c *UDPConn) WriteMsgUDP(b, oob []byte, addr *UDPAddr) (n, oobn int, err error) {
+	if addr == nil {
+		n, err = c.Write(b)
+	} else {
+		n, err = c.WriteToUDP(b, addr)
+	}
+	return
+}
+func (c *UDPConn) WriteMsgUDPAddrPort(b, oob []byte, addr netip.AddrPort) (n, oobn int, err error) {
+	n, err = c.WriteToUDPAddrPort(b, addr)
+	return
+}
+
+func (c *StreamConn) SetKeepAlive(bool) error                { return nil }
+func (c *StreamConn) SetKeepAlivePeriod(time.Duration) error { return nil }
+func (c *StreamConn) SetNoDelay(bool) error                  { return nil }
+func (c *StreamConn) SetLinger(int) error                    { return nil }
+func (c *StreamConn) SetReadBuffer(int) error                { return nil }
+func (c *StreamConn) SetWriteBuffer(int) error               { return nil }
